@@ -665,6 +665,14 @@ func c17HistoryCase(ctx *core.Ctx, e *gen.Entry, r *rand.Rand, sample bool) {
 			h := h
 			got, err, perr := c17Run(kind, e, kcfg, sortRows, &h, prior, rows, kbatches)
 			ctx.Hist("history", kind+" "+h.class)
+			if err != nil && strings.HasPrefix(err.Error(), "during the prior history") {
+				// a PANIC (not an error return) while the earlier content was written: the instance's
+				// contract is void, nothing to compare. Not a determinism defect; counted and shown.
+				// (Seen: SortingWriter.Close -> MergeRowGroups -> FileColumnIndex.MaxValue index out
+				// of range on an optional fixed-length column with an all-null page: finding F6 of C02/C05.)
+				ctx.Hist("prior-history-panic", kind+" "+errClass(errors.Unwrap(err)))
+				continue
+			}
 			if perr > 0 {
 				ctx.Hist("prior-history-errors", h.class)
 			}
